@@ -847,6 +847,17 @@ def run_c10_endings_case(res: dict, rng: random.Random, seed: Any):
             sp['_link'] = link
         await settle(70.0)
         obs['registry_items'] += registry_check(w, me, viol, 'after-endings', cm=cm)
+        # an incoming connection whose first frame was complete but undecodable has to be turned away, whether or not
+        # the remote end keeps its socket open
+        for sp in specs:
+            if sp['direction'] == 'in' and sp['init'] in ('garbage', 'unknown-code'):
+                obs['undecodable_inits_judged'] = obs.get('undecodable_inits_judged', 0) + 1
+                c_ = sp.get('_conn')
+                still = [c for c in net.peer_connections if c is c_] if c_ is not None else []
+                lk = sp.get('_link')
+                if still or (lk is not None and not lk.closed and not lk.writer.transport._lost and c_ is not None
+                             and c_.state.name not in ('CLOSED', 'CLOSING')):
+                    viol.append((f"undecodable-init-not-turned-away:{sp['init']}", {'spec': _pub2(sp), 'state': c_.state.name}))
         # send after CLOSED must not put bytes on the wire and no message may be delivered after CLOSED
         for sp in specs:
             conn = sp.get('_conn')
